@@ -85,6 +85,12 @@ def enabled(obj, X, kind, f="f", hist_len=0):
             new = l + (min(nxt) - l) / 4 if nxt else l + 1.0
             if not order.contains(new):
                 evs.append(["replace", l, new])
+            # rounding a threshold DOWN (documented use): the rows between the new and the old threshold change group
+            members = [m for m in order.content[l] if not space.is_nan_leader(m)]
+            lower = [v for v in members if v < l] + [v for v in train if v < l]
+            down = l - (l - max(lower)) / 4 if lower else l - 0.5
+            if not order.contains(down) and down > (max([m for m in members if m < l], default=-math.inf)):
+                evs.append(["replace", l, down])
     elif kind == "ORD":
         for a, b in zip(leaders, leaders[1:]):
             evs.append(["group", a, b])
@@ -146,7 +152,11 @@ def check_transition(before_obj, after_obj, X, ev, viol, f="f"):
         viol.append({"kind": "transform-raises-after-edit", "what": f"{ev}: transform raised {type(exc).__name__}: {str(exc)[:100]}"})
         return
     if mode == "replace":
-        if pa != pb:
+        leaders_after = [norm(x) for x in after_obj.values_orders[f]]
+        if norm(b) not in leaders_after or norm(a) in leaders_after:
+            viol.append({"kind": "replace-not-renamed", "what": f"{ev}: after 'replace' the group leaders are {list(after_obj.values_orders[f])!r}"})
+        lowered = f in after_obj.quantitative_features and not isinstance(b, str) and b < a
+        if pa != pb and not lowered:  # a lowered threshold legitimately moves the rows in between (judged by RefTransform)
             viol.append({"kind": "replace-changes-partition", "what": f"{ev}: 'replace' changed the grouping of rows"})
         return
     disc_leader = STR_NAN if a == "NaN" else a
